@@ -29,6 +29,9 @@ partial def parseValue (cs : List Char) : Option (Value × List Char) :=
   | 'F' :: r => some (.bool false, r)
   | 'i' :: r => let (n, r') := takeNum r; n.toInt?.map (fun i => (.int i, r'))
   | 'u' :: r => let (n, r') := takeNum r; n.toNat?.map (fun i => (.uint i, r'))
+  | 'f' :: 'N' :: 'a' :: 'N' :: r => some (.fspec 0, r)
+  | 'f' :: '+' :: 'I' :: 'n' :: 'f' :: r => some (.fspec 1, r)
+  | 'f' :: '-' :: 'I' :: 'n' :: 'f' :: r => some (.fspec 2, r)
   | 'f' :: r => let (n, r') := takeNum r; n.toInt?.map (fun i => (.flt i, r'))
   | 't' :: r => let (n, r') := takeNum r; n.toInt?.map (fun i => (.time i, r'))
   | '\'' :: r =>
@@ -160,6 +163,7 @@ def bucketRows (cfg : Cfg) (q : Query) (store : List Rec) : Option (List Rec) :=
   match q.filter with
   | none => none
   | some g =>
+    if cfg.pagedQueriesBypass && (q.from_ != 0 || q.limit != 0) then none else
     let go (hints : List Hint) : List Rec :=
       let c0 := candidates cfg store hints
       let c1 := if cfg.bucketChecksAttr then c0.filter (carries q.slot) else c0
@@ -175,14 +179,14 @@ def cuts (q : Query) : Bool := q.from_ != 0 || q.limit != 0 || q.maxResults != 0
 def good (cfg : Cfg) : Cfg := { cfg with
   indexableOps := [.eq, .strIn, .i32In, .i64In], excludesSpecialPaths := true, planOrBypassOnSubGroups := true,
   scanEqCanonical := true, bucketPagingAfterFilter := true, scanPagingAfterFilter := true, labelReattach := true,
-  bucketChecksAttr := true, lookupInDedupes := true, unionDedupes := true, bucketWindowTimeOnly := true }
+  pagedQueriesBypass := true, bucketChecksAttr := true, lookupInDedupes := true, unionDedupes := true, bucketWindowTimeOnly := true }
 
 /-- single-fact repairs, with the finding each one stands for -/
 def repairs (cfg : Cfg) : List (String × (Cfg → Cfg)) :=
   (if !cfg.scanEqCanonical then [("C08-scan-equality-not-canonical", fun c => { c with scanEqCanonical := true })] else []) ++
   (if !cfg.excludesSpecialPaths then [("C08-special-path-hinted", fun c => { c with excludesSpecialPaths := true })] else []) ++
-  (if !(cfg.bucketPagingAfterFilter && cfg.scanPagingAfterFilter) then
-    [("C08-paging-before-residual", fun c => { c with bucketPagingAfterFilter := true, scanPagingAfterFilter := true })] else []) ++
+  (if !(cfg.bucketPagingAfterFilter && cfg.scanPagingAfterFilter) && !cfg.pagedQueriesBypass then
+    [("C08-paging-before-residual", fun c => { c with pagedQueriesBypass := true })] else []) ++
   (if !cfg.labelReattach then [("C08-indexed-leg-label-dropped", fun c => { c with labelReattach := true })] else []) ++
   (if !cfg.bucketChecksAttr then [("C08-bucket-route-ignores-index-attribute", fun c => { c with bucketChecksAttr := true })] else []) ++
   (if !cfg.bucketWindowTimeOnly then [("C08-window-on-key-index", fun c => { c with bucketWindowTimeOnly := true })] else []) ++
@@ -228,6 +232,7 @@ def step (d : DSt) (line : String) : DSt × String :=
     | some c, some u, some e => ({ d with store := upsert d.store k none c u e }, "ok")
     | _, _, _ => (d, "bad-op")
   | ["del", k] => ({ d with store := d.store.filter (·.key != k) }, "ok")
+  | ["reload"] => (d, "ok")
   | ["q", idx, ord, fr, lim, ft, tt, mx, filt] =>
     match slotOf idx, fr.toNat?, lim.toNat?, optT ft, optT tt, mx.toNat? with
     | some sl, some fr, some lim, some ft, some tt, some mx =>
@@ -258,7 +263,8 @@ def run (args : List String) : IO UInt32 := do
     indexableOps := ops, excludesSpecialPaths := yes kv "excludesSpecialPaths",
     planOrBypassOnSubGroups := yes kv "planOrBypassOnSubGroups", scanEqCanonical := yes kv "scanEqCanonical",
     bucketPagingAfterFilter := yes kv "bucketPagingAfterFilter", scanPagingAfterFilter := yes kv "scanPagingAfterFilter",
-    labelReattach := yes kv "labelReattach", bucketChecksAttr := yes kv "bucketChecksAttr",
+    labelReattach := yes kv "labelReattach", pagedQueriesBypass := yes kv "pagedQueriesBypass",
+    bucketChecksAttr := yes kv "bucketChecksAttr",
     lookupInDedupes := yes kv "lookupInDedupes", unionDedupes := yes kv "unionDedupes",
     bucketWindowTimeOnly := yes kv "bucketWindowTimeOnly" }
   lineLoop step { cfg := cfg, store := [] }
